@@ -10,6 +10,7 @@ CONSTANTS
   Repair = {"certReload", "replayMoves", "noBackward"}
   Mode = "G"
   MaxOps = 1000000
+  GVAfter = 0
   Weaken = FALSE
 CONSTRAINT HighWater
 POSTCONDITION Accepted
